@@ -53,6 +53,28 @@ def anyCycle (g : List (String × List String)) (roots : List String) : Bool :=
 def dangling (g : List (String × List String)) (uses : List String) : Bool :=
   (uses ++ g.flatMap (·.2)).any fun r => (g.lookup r).isNone
 
+def stRank (s : String) : Nat := match s with | "deprecated" => 1 | "obsolete" => 2 | _ => 0
+def modOfQ (q : String) : String := (q.splitOn ":").headD ""
+
+/-- `assertReferenceStatus` along the typedef chains the leaves use: a definition of status `s` may not refer to a
+    definition of its own module whose status is worse than `s` (after the repair a typedef's references are judged by the
+    typedef's own status) -/
+def statusViolation (j : Json) : Bool :=
+  let mods := jarr j "mods"
+  let tdefs : List (String × (String × Nat)) := mods.flatMap fun s => (jarr s "typedefs").map fun d =>
+    (jstr s "name" ++ ":" ++ jstr d "n", (jstr d "base", stRank (jstr d "st")))
+  let rec walk (fuel : Nat) (srcMod : String) (srcSt : Nat) (ref : String) : Bool :=
+    match fuel with
+    | 0 => false
+    | f + 1 =>
+      if builtin ref then false else
+      match tdefs.lookup ref with
+      | none => false
+      | some (base, st) => (srcMod = modOfQ ref && srcSt < st) || walk f (modOfQ ref) st base
+  mods.any fun s => (jarr s "leaves").any fun l =>
+    -- (no feature is enabled in this stream: a leaf with an if-feature is not built, its type not looked at)
+    jstr l "type" ≠ "identityref" && (jarr l "iff").isEmpty && walk 100 (jstr s "name") (stRank (jstr l "st")) (jstr l "type")
+
 /-- the verdict; `allTypedefs` = the specification (every typedef must be acyclic), otherwise the code
     (only the typedefs a leaf uses are followed) -/
 def verdict (j : Json) (allTypedefs : Bool) : String :=
@@ -76,6 +98,7 @@ def verdict (j : Json) (allTypedefs : Bool) : String :=
   else if fault = "bad-augment-path" then "err:ref"
   else if (d.usedTypes.any fun t => (d.tdefs.lookup t).isNone) then "err:ref"
   else if anyCycle d.tdefs (if allTypedefs then d.tdefs.map (·.1) else d.usedTypes) then "err:typedef-cycle"
+  else if fault = "ref-status" && statusViolation j then "err:status"
   else "ok"
 
 def handle (j : Json) : List (String × Json) :=
